@@ -548,7 +548,8 @@ class Path:
         self.trig, self.exps, self.logs, self.sqrts, self.pows = [], [], [], [], []
         self.generic = {}
         self.inputs = {}        # name -> z3 const
-        self.obls = []          # (name, formula, functions)
+        self.obls = []          # (name, formula, n_assume, using)
+        self.gen = {}           # obligation index -> terms to generalise
         self.hints = []
         self.solver = z3.Solver()
         self.solver.set("timeout", explorer.branch_timeout_ms)
@@ -723,15 +724,36 @@ class SymCtx:
     def true(self): return z3.BoolVal(True)
 
     def require(self, cond, label=""):
-        self.path.add_assume(fbool(cond))
+        f = fbool(cond)
+        self.path.add_assume(f)
+        return f
 
     def hint(self, fact, label):
         """axiom instance from the T4 library; assumed, logged"""
-        self.path.add_assume(fbool(fact))
+        f = fbool(fact)
+        self.path.add_assume(f)
         self.path.hints.append(label)
+        return f
 
-    def ensure(self, name, cond, functions=()):
-        self.path.obls.append((name, fbool(cond), tuple(functions)))
+    def ensure(self, name, cond, functions=(), using=None, generalize=None):
+        # `generalize=[terms]`: the listed sub-terms are replaced by fresh reals everywhere in
+        # goal, `using` and facts before solving (proving the generalisation proves the instance)
+        if generalize is not None:
+            self.path.gen[len(self.path.obls)] = [lift(t) for t in generalize]
+        # the obligation may use the assumptions made so far (requires, hints, earlier lemmas);
+        # `using=[formulas]` restricts the hypotheses to the given ones plus the ground facts of
+        # the function applications occurring in them and in the goal (a "BY" clause: fewer
+        # hypotheses, so still sound)
+        u = None if using is None else [fbool(x) for x in using]
+        self.path.obls.append((name, fbool(cond), len(self.path.assume), u))
+
+    def lemma(self, name, cond, functions=(), using=None, generalize=None):
+        """an obligation that, once stated, is available as hypothesis to LATER obligations of
+        the same path (never to itself or earlier ones)"""
+        f = fbool(cond)
+        self.ensure(name, f, using=using, generalize=generalize)
+        self.path.add_assume(f)
+        return f
 
     def done(self):
         raise _ContractReturn()
@@ -833,13 +855,17 @@ class ConcCtx:
     def require(self, cond, label=""):
         if not self._b(cond):
             raise Reject(label)
+        return cond
 
     def hint(self, fact, label):
-        pass
+        return fact
 
-    def ensure(self, name, cond, functions=()):
+    def ensure(self, name, cond, functions=(), using=None, generalize=None):
         ok = self._b(cond)
         self.results[name] = self.results.get(name, True) and ok
+        return cond
+
+    lemma = ensure
 
     def done(self):
         raise _ContractReturn()
@@ -1164,6 +1190,43 @@ def install_shims():
 # ---------------------------------------------------------------------------------------
 # solving
 # ---------------------------------------------------------------------------------------
+def uf_apps(formulas):
+    """ids of all uninterpreted applications (arity > 0) in the formulas"""
+    seen = {}
+    out = set()
+
+    def walk(t):
+        k = t.get_id()
+        if k in seen:
+            return
+        seen[k] = t
+        if z3.is_app(t):
+            if t.decl().kind() == z3.Z3_OP_UNINTERPRETED and t.num_args() > 0:
+                out.add(k)
+            for c in t.children():
+                walk(c)
+    for f in formulas:
+        walk(f)
+    return out, seen
+
+
+def relevant_facts(facts, formulas, path=None):
+    """facts all of whose function applications occur in `formulas` (sin/cos of the same
+    argument count as one unit)"""
+    want, keep = uf_apps(formulas)
+    if path is not None:
+        for (t, c, s) in path.trig:
+            if c.get_id() in want or s.get_id() in want:
+                want.add(c.get_id())
+                want.add(s.get_id())
+    res = []
+    for f in facts:
+        apps, keep2 = uf_apps([f])
+        if apps <= want:
+            res.append(f)
+    return res
+
+
 def ackermannize(formulas):
     """replace every uninterpreted application by a fresh real (functional consistency was
     already added pairwise as ground facts when the applications were created)"""
